@@ -127,13 +127,7 @@ def x_vchoice(m, nm, n):
     name = m.cstr(nm)
     if m.int_inputs is not None:
         return m.int_inputs(name, 0, n - 1) & 0xffffffff
-    t = sym(f'{name}__{len(m.taken)}', 'I')
-    m.syms[t.args[0]] = t
-    for v in range(n - 1):
-        if m.decide(mk_cmp('eq', t, v)):
-            return v
-    m.assume(mk_cmp('eq', t, n - 1))
-    return n - 1
+    return m.choose(n, name)
 
 
 def _boolarg(c):
@@ -617,6 +611,8 @@ def base_ext():
         '@llvm.umax.i32': imm(32, False, 'max'), '@llvm.umin.i32': imm(32, False, 'min'),
         '@llvm.smax.i64': imm(64, True, 'max'), '@llvm.smin.i64': imm(64, True, 'min'),
         '@llvm.umax.i64': imm(64, False, 'max'), '@llvm.umin.i64': imm(64, False, 'min'),
+        '@llvm.usub.sat.i64': lambda m, a, b: max(a - b, 0), '@llvm.usub.sat.i32': lambda m, a, b: max(a - b, 0),
+        '@llvm.uadd.sat.i64': lambda m, a, b: min(a + b, 2 ** 64 - 1), '@llvm.uadd.sat.i32': lambda m, a, b: min(a + b, 2 ** 32 - 1),
         '@llvm.abs.i32': x_abs_i(32), '@llvm.abs.i64': x_abs_i(64),
         '@div': x_div,
         '@llvm.assume': x_noop, '@llvm.trap': x_abort,
